@@ -196,12 +196,23 @@ def _validated_loop(ctx, fn, L, frm, to):
             if strip_clone(_strip_casts(x)) == strip_clone(den):
                 k = _int_const(y)
                 r = r - {'un'}      # integer operands are never unordered
+                if k == 0 and _unsigned(den):
+                    r = r - {'lt'}  # an unsigned count is never below zero: `n != 0` is `n > 0`
                 if k is not None and ((r <= {'gt'} and k >= 0) or (r <= {'gt', 'eq'} and k >= 1)):
                     n_ok = True
                     info['K'] = k if r <= {'gt'} else k - 1
     if not n_ok:
         info['problems'].append('the loop can be entered with zero steps (no dominating test n > K): the checker would answer true without any query')
     return info
+
+
+UNSIGNED = ('usize', 'u8', 'u16', 'u32', 'u64', 'u128')
+
+
+def _unsigned(ts):
+    ts = strip_clone(ts)
+    return bool(ts) and all((n[0] == 'cast' and n[3] in UNSIGNED) or
+                            (n[0] == 'call' and n[1].endswith('::len')) for n in ts)
 
 
 def _is_plus_one(a, b):
